@@ -32,7 +32,7 @@ META = {
             "operations on that key (proj_run, cbs_run, commute, exactly_once_fold, execGlobal_rank, stored_only_on_owner). Props/C11 proves one theorem per "
             "clause: insert_overwrites, insert_if_missing_keeps, visit_creates_default_and_calls_once, visit_multi_once_per_value, group_once, "
             "visit_if_exists_never_creates, else_visit_offered_value, reduce_is_fold (+ reduce_perm for associative-commutative operators), "
-            "erase_removes_all, multimap_adds, multimap_inserts_append, map_invariant, queries_agree_*. The model is tied to the code by exact replay on one rank and by "
+            "erase_removes_all, multimap_adds, multimap_inserts_append, map_invariant, queries_agree_*, copy_same_default, copy_independent. The model is tied to the code by exact replay on one rank and by "
             "a search for an explaining sequential order per contended key on multi-rank runs under simmpi.",
     "note": "Trusted: Lean kernel + propext/Classical.choice/Quot.sound; the hand-written model MapOps.lean, tied to map_impl.hpp on the "
             "explored histories only; exactly-once atomic execution on the owner (C01/C02/C08) is the assumption `Dist.Complete`, not proved "
@@ -50,7 +50,10 @@ RULE = ("a case = (scenario, container kind, key/value kinds, layout, routing, b
         "keeps TWO containers of the same type alive on the communicator with interleaved operations (a third with equal shares), each judged "
         "against its own contents; a quarter of the multi-rank cases run the same scenario, through the same template instantiations, on a "
         "sub-communicator (MPI_Comm_split of the world by local id: last-vs-rest or parity) AND on the world communicator of one process, in "
-        "either order, and both runs (every sub-communicator group and the world) are judged with the same oracles / model comparison")
+        "either order, and both runs (every sub-communicator group and the world) are judged with the same oracles / model comparison; "
+        "map / multimap scenarios copy-construct container 1 from container 0 (custom defaults) and continue at once, without a barrier, on "
+        "the copy and on the original (copy = same contents + same default, then independent), incl. loops of several copies after "
+        "rank-skewed work at capacity 0; in 40 % of the scenarios some ranks call comm.stats_reset() between operations and after barriers")
 
 LAYOUTS = [(1, 2), (1, 3), (2, 2), (1, 5), (2, 3), (1, 7), (2, 4), (4, 2), (1, 4), (3, 2), (1, 8), (1, 6)]
 ROUTINGS = ["NONE", "NR", "NLNR"]
